@@ -290,6 +290,12 @@ func (s *Sim) doStake(pr *Prov, chain string, amount int64, byProviderAddr bool)
 		creator = pr.Addr
 	}
 	commission := uint64(s.R.Intn(101))
+	switch s.R.Intn(6) {
+	case 0:
+		commission = 100
+	case 1:
+		commission = 0
+	}
 	if md, err := s.TS.Keepers.Epochstorage.GetMetadata(s.TS.Ctx, pr.Addr); err == nil && s.R.Intn(3) != 0 {
 		commission = md.DelegateCommission
 	}
